@@ -269,7 +269,8 @@ func augBase() (a, as *ir.Mod) {
 		ir.N("rpc", "r2", ir.N("input", "", ir.Leaf("i", "string"))),
 		ir.N("notification", "n", ir.Leaf("nl", "string")),
 	}
-	as.Body = []*ir.S{ir.Cont("subc", ir.Leaf("sl", "string"))}
+	// (an rpc without input and output written in the submodule: its tree is copied into the module's)
+	as.Body = []*ir.S{ir.Cont("subc", ir.Leaf("sl", "string")), ir.N("rpc", "sr")}
 	return
 }
 
@@ -279,7 +280,9 @@ var AugTargets = []string{"top", "top/c", "top/li", "top/ch", "top/ch/ka", "top/
 	// member list, the leaf inside the member (cannot have children), the container inside the member of chm
 	// the member of chm, which holds a container of its own name (the library used to graft into that
 	// inner container; repaired, f8c6f7c)
-	"top/ch/sc/sc", "top/ch/sl/sl", "top/ch/sc/sc/sc", "top/chm/sm/sm/sm", "top/chm/sm/sm"}
+	"top/ch/sc/sc", "top/ch/sl/sl", "top/ch/sc/sc/sc", "top/chm/sm/sm/sm", "top/chm/sm/sm",
+	// input and output, not written, of an rpc that is written in the submodule
+	"sr/input", "sr/output"}
 
 // AugTargetsKnown: targets on which the library is known to fail (none at present); only C07 uses them.
 var AugTargetsKnown = []string{}
